@@ -189,7 +189,8 @@ def r1_step_shape(repo: Repo, rep):
             if p.ret is RAISE:
                 continue
             v = p.env.get("self.n_training_step")
-            rep.check(R, v is not None and dump(v) == "0", ots.site(), ots.fq, "on_train_start sets self.n_training_step = 0",
+            rep.check(R, v is not None and dump(v) in ("0", "self.trainer.global_step", "self.global_step"), ots.site(), ots.fq,
+                      "on_train_start sets self.n_training_step to the number of optimisation steps done so far (0 for a fresh run)",
                       f"value on this path: {dump(v)}", dump(v))
 
 
@@ -476,7 +477,7 @@ MUTANTS = [
     dict(id="C07-M8", file=_S, old="loss = loss + condition.weight * cond_loss", new="loss = condition.weight * cond_loss", rule=None, what="(control) sum replaced by last — indistinguishable for one iteration"),
     dict(id="C07-M9", file=_S, old="self.parameters(),\n            lr=", new="self.train_conditions[0].parameters(),\n            lr=", rule="R-C07-2", what="optimizer over a subset"),
     dict(id="C07-M10", file=_M, old="return weight * points", new="return self.weight * points", rule="R-C07-4", what="reversal bypassed"),
-    dict(id="C07-M11", file=_S, old="        self.n_training_step = 0\n", new="        pass\n", rule="R-C07-1", what="counter never reset"),
+    dict(id="C07-M11", file=_S, old="        self.n_training_step = self.trainer.global_step\n", new="        pass\n", rule="R-C07-1", what="counter never reset"),
     dict(id="C07-M12", file=_S, old="loss = loss + condition.weight * cond_loss", new="loss = loss + condition.weight * cond_loss.detach()", rule="R-C07-1", what="loss detached"),
 ]
 MUTANTS = [m for m in MUTANTS if m["id"] not in ("C07-M6", "C07-M8")]
